@@ -67,20 +67,27 @@ class Calc(object):
                       | expression '|' expression
                       | expression LSHIFT expression
                       | expression RSHIFT expression"""
-        if p[2] == '+':
-            p[0] = p[1] + p[3]
-        elif p[2] == '-':
-            p[0] = p[1] - p[3]
-        elif p[2] == '*':
-            p[0] = p[1] * p[3]
-        elif p[2] == '/':
-            p[0] = p[1] // p[3]
-        elif p[2] == '<<':
-            p[0] = p[1] << p[3]
-        elif p[2] == '>>':
-            p[0] = p[1] >> p[3]
-        elif p[2] == '|':
-            p[0] = p[1] | p[3]
+        try:
+            p[0] = Calc._binop(p[1], p[2], p[3])
+        except (ZeroDivisionError, ValueError) as e:
+            raise ParseError("cannot evaluate '%s %s %s': %s" % (p[1], p[2], p[3], e))
+
+    @staticmethod
+    def _binop(lhs, op, rhs):
+        if op == '+':
+            return lhs + rhs
+        elif op == '-':
+            return lhs - rhs
+        elif op == '*':
+            return lhs * rhs
+        elif op == '/':
+            return lhs // rhs
+        elif op == '<<':
+            return lhs << rhs
+        elif op == '>>':
+            return lhs >> rhs
+        elif op == '|':
+            return lhs | rhs
 
     @staticmethod
     def p_expression_uminus(p):
